@@ -1,8 +1,65 @@
 """C17 — the arm64 decoder: total over the word space; exact on the PC-relative / branch classes.
 Spec: A64Format.tla (bit-field model of the classes goom relies on, self-tested against ARM ARM vectors by TLC),
 Trace_A64.tla (judge). The totality sweep itself is an exhaustive Go run whose per-chunk summaries TLC checks."""
-import json, os
+import glob, json, os, subprocess
 from lib import vlib
+
+
+def reference_overlay(ctx, base):
+    """the Go toolchain's own copy of golang.org/x/arch/arm64/arm64asm (GOROOT/src/cmd/vendor), copied into the build as
+    zzverif/refa64: the independent reference decoder the property speaks of"""
+    roots = [subprocess.run(["go", "env", "GOROOT"], capture_output=True, text=True).stdout.strip()] + sorted(glob.glob("/usr/lib/go-*")) + sorted(glob.glob("/opt/veriftools/go*"))
+    for root in roots:
+        d = os.path.join(root, "src/cmd/vendor/golang.org/x/arch/arm64/arm64asm")
+        srcs = [f for f in sorted(glob.glob(os.path.join(d, "*.go"))) if not f.endswith("_test.go")]
+        if srcs:
+            files = {"zzverif/refa64/" + os.path.basename(f): open(f).read() for f in srcs}
+            return ctx.extra_overlay(base, files), d
+    return None, None
+
+
+def differential(ctx, q):
+    ov, src = reference_overlay(ctx, ctx.overlay(["a64", "a64diff"]))
+    if ov is None:
+        ctx.note("no reference arm64 decoder found under GOROOT/src/cmd/vendor: agreement on the whole word space not checked")
+        ctx.assumptions.append("reference decoder sources absent: only the bit-field model judged agreement")
+        return
+    binary = ctx.build_test("internal/arch/arm64asm", ["a64", "a64diff"], name="a64diff", gcflags="", overlay=ov)
+    out = ctx.path("a64diff.ndjson")
+    stride = 61 if q else 1
+    rc, o = ctx.run_bin(binary, "^TestVerifA64Diff$", env={"VERIF_OUT": out, "VERIF_STRIDE": str(stride), "VERIF_FILLS": "48" if q else "2000"}, timeout=300 if q else 6000)
+    if rc != 0 or not os.path.exists(out):
+        ctx.violation("the arm64 differential driver crashed: " + o[-800:], {"family": "a64", "kind": "crash", "tail": o[-2000:]})
+        return
+    lines = open(out).read().splitlines()
+    words = nok = nout = 0
+    for i in range(0, len(lines), 150000):
+        part = lines[i:i + 150000]
+        open(os.path.join(ctx.specdir(), "trace.ndjson"), "w").write("\n".join(part) + "\n")
+        t = ctx.tlc("Trace_A64", "Trace_A64.cfg", workers=1, timeout=1500, tag="judge %d differential records" % len(part), jvm="-Xss64m")
+        summ = [x for x in ctx.behaviours(t) if isinstance(x, dict) and x.get("summary")]
+        if not summ:
+            raise vlib.Broken("no summary from Trace_A64: " + t["out"][-800:])
+        nok += summ[0]["tally"]["ok"]
+        nout += summ[0]["tally"]["outside"]
+        for what, idx in summ[0]["bad"]:
+            e = json.loads(part[idx - 1])
+            if e["ev"] == "dchunk":
+                ctx.violation("words %#x000000..: %d of %d words disagree with the reference decoder outside the system-instruction space (%d inside): %s" % (
+                    e["chunk"], e["otherdiff"], e["words"], e["sysdiff"], what), {"family": "a64", "kind": what, "chunkdiff": e["chunk"]})
+            else:
+                w = sum(b << (8 * k) for k, b in enumerate(e["b"]))
+                ctx.violation("arm64 word %#010x: goom says err=%s op=%s pcrel=%s disp=%d %s, the reference decoder says err=%s op=%s pcrel=%s disp=%d: %s" % (
+                    w, e["err"], e["op"], e["has"], e["disp"], e["panic"], e["rerr"], e["rop"], e["rhas"], e["rdisp"], what),
+                    {"family": "a64", "kind": what, "word": "%#010x" % w, "decoder": {k: e[k] for k in ("err", "op", "has", "disp")},
+                     "reference": {k: e[k] for k in ("rerr", "rop", "rhas", "rdisp")}})
+        words += sum(json.loads(x)["words"] for x in part if '"ev":"dchunk"' in x.replace(" ", ""))
+    ctx.cov["traces_validated_against_impl"] += len(lines)
+    ctx.cov["evaluations"] += words
+    ctx.cov["words_compared_with_reference"] = words
+    ctx.note("reference decoder %s: %d words compared (stride %d) + format fills; %d recorded records agree, %d disagreements inside the exempt system-instruction space" % (src, words, stride, nok, nout))
+    if words < (1 << 32) // stride - 1000:
+        raise vlib.Broken("differential sweep incomplete: %d words" % words)
 
 
 def run(ctx):
@@ -40,6 +97,7 @@ def run(ctx):
                 w = sum(b << (8 * k) for k, b in enumerate(e["b"]))
                 ctx.violation("arm64 word %#010x: decoder says err=%s op=%s pcrel=%s disp=%d %s: %s" % (w, e["err"], e["op"], e["has"], e["disp"], e["panic"], what),
                               {"family": "a64", "kind": what, "word": "%#010x" % w, "decoder": {k: e[k] for k in ("err", "op", "has", "disp", "panic")}})
+    differential(ctx, q)
     ctx.cov["traces_validated_against_impl"] += len(lines)
     ctx.cov["evaluations"] += tally["words"] + len(lines)
     ctx.cov["distinct_nontrivial"] = tally["ok"]
@@ -52,7 +110,10 @@ def run(ctx):
     ctx.cov["rule"] = ("totality: Decode + String() on every %s word of the 2^32 space (Go sweep on all cores, one summary per 2^24-word chunk, "
                        "TLC requires panics = 0 and insts + errs = words); exactness: for B/BL, B.cond, CBZ/CBNZ, TBZ/TBNZ, ADR/ADRP, literal loads, "
                        "BR/BLR/RET and the unallocated groups, every immediate with <= 2 bits set or cleared, the boundaries and seeded random "
-                       "members, judged by the bit-field model for decodability, opcode and displacement" % ("" if not q else "61st"))
-    ctx.assumptions += ["agreement on the rest of the A64 encoding space (data processing, loads/stores, SIMD, system) is NOT decided: it would need a "
-                        "transcription of the whole ISA, which is not a sensible TLA+ artefact (DESIGN §4 C17, §5)",
+                       "members, judged by the bit-field model for decodability, opcode and displacement; agreement with the reference decoder "
+                       "(decodability, opcode, PC-relative displacement) on the same words plus fills of every format of the decoder's table, every "
+                       "recorded disagreement and every chunk summary judged by TLC (exempt: SYS / SYSL)" % ("" if not q else "61st"))
+    ctx.assumptions += ["agreement on the rest of the A64 encoding space (data processing, loads/stores, SIMD) is decided against the Go toolchain's own copy "
+                        "of x/arch arm64asm (same lineage as goom's copy, so a mistake common to both is not seen); the bit-field model is independent "
+                        "but covers the branch / address classes only; inside the exempt SYS/SYSL space only every 64th disagreement is recorded",
                         "the enumeration of the word space is an exhaustive Go run, not a TLC result; TLC checks its summaries"]
